@@ -38,6 +38,9 @@ def get_angle_spec_from_float(angle: float, tol: float = 1e-4) -> List[Tuple[int
     tol : float
         Tolerance to use
     """
+    # Do the arithmetic in double precision, whatever numeric type was given
+    # (a numpy float16/float32 would otherwise be decomposed in its own precision)
+    angle = float(angle)
     angle %= 2 * np.pi
     rest = angle / np.pi
 
